@@ -526,7 +526,7 @@ func checkRT(prop, tier string) int {
 			"packages_using_sync":         syncPkgs,
 			"known_findings_hit":          knownHit,
 			"determinism_canary":          "48 seeds re-run in 2+2 extra processes with GOMAXPROCS 1 and 4: event-log hashes identical",
-			"real_vs_stub":                "real: generated router/handlers/codecs/client (statement-level yields inserted), encoding/json, net/url, net/http wire codec (Request.Write, ReadRequest, Response.Write, ReadResponse), kin-openapi openapi3filter (C09 oracle 2); stub: TCP, net/http server connection loop and ResponseWriter (server shell), http.Transport (SimTransport), goroutine scheduler (tape), user handlers/authenticators/middlewares/CORS handler (recording harness)",
+			"real_vs_stub":                "real: generated router/handlers/codecs/client (statement-level yields inserted), encoding/json, net/url, net/http wire codec (Request.Write, ReadRequest, Response.Write, ReadResponse), kin-openapi openapi3filter (C09 oracle 2); real but released one at a time: channel operations, selects and WaitGroups of the generated code itself (none today); stub: TCP, net/http server connection loop and ResponseWriter (server shell), http.Transport (SimTransport), goroutine scheduler (tape), sync.Mutex/RWMutex/Pool of the generated code (simulated), user handlers/authenticators/middlewares/CORS handler (recording harness)",
 			"build_s":                     b.BuildS,
 			"build_cached":                b.Cached,
 			"repo_tree_hash":              b.TreeHash,
